@@ -18,4 +18,33 @@ PROPS = {
         "assumptions": ["ParseFloat key is order-isomorphic to the float order (math.Float64bits mapping, +-0 identified)",
                         "a text that parses as a float is never the literal 'unavailable'"],
     },
+    "C05": {
+        "prop_files": ["Katib/Props/C05.lean"],
+        "n": {"quick": 30000, "thorough": 600000},
+        "rule": "seeded random (spec, stored status, trial list) triples: 0-40 trials with realistic or arbitrary condition subsets "
+                "(True/False, duplicates), 0-2 metrics each with min/max/latest texts (numeric syntaxes, ties, negatives, 'unavailable', "
+                "occasionally non-numeric), strategies min/max/latest/invalid, stale lists in the stored status; non-trivial = at least one "
+                "trial carries an observation with a metric; distinct = distinct op line",
+        "trusted": ["strconv.ParseFloat as oracle (key per metric text)", "reflect.DeepEqual on the optimal trial's payload is evaluated Go-side"],
+        "modelled": ["UpdateExperimentStatus, updateTrialsSummary, getObjectiveMetricValue (experiment/util/status_util.go) as Katib.Exp.updateStatus/summarise/objectiveOf"],
+        "level_text": "Lean theorems (C05_lists, C05_partition, C05_counters, C05_classify, C05_optimal(+_minimize/_maximize), C05_order_invariant, "
+                      "C05_objective_strategy) for every trial list of the model of updateTrialsSummary; tie to util.UpdateExperimentStatus by a "
+                      "differential run, observed Go status judged by the executable oracle",
+        "level_note": "trusted: Lean kernel; harness/check; ParseFloat oracle; optimum statements assume every available objective text is numeric "
+                      "(the property's quantifier); non-numeric texts are covered by the correspondence only",
+        "assumptions": ["ParseFloat key order-isomorphic to float order", "trial names are unique (Kubernetes)"],
+    },
+    "C03": {
+        "prop_files": ["Katib/Props/C03.lean"],
+        "n": {"quick": 30000, "thorough": 600000},
+        "rule": "same generator as C05 with stored conditions in every completion state (none/Succeeded by 3 reasons/Failed/stale False verdicts), "
+                "budgets maxTrialCount 1-6 or unset, maxFailedTrialCount 0-4 or unset, goal set/unset; non-trivial = at least one trial with a metric",
+        "trusted": ["strconv.ParseFloat as oracle"],
+        "modelled": ["UpdateExperimentStatusCondition, Mark* / setCondition (experiments/v1beta1/util.go) as Katib.Exp.updateCondition, Katib.Cond.set"],
+        "level_text": "Lean theorems C03_verdict (verdict = goal > failed > max-trials > suggestion-end > running, with reasons and completion time), "
+                      "C03_exclusive, C03_running_false, C03_frozen, C03_precedence, C03_rules for every budget/counter/condition list; tie to "
+                      "util.UpdateExperimentStatus by differential run + oracle. Stability over reconcile sequences: controller model (C03Ctl).",
+        "level_note": "trusted: Lean kernel; harness/check; ParseFloat oracle",
+        "assumptions": ["condition status is True/False (katib never writes Unknown)"],
+    },
 }
